@@ -2,7 +2,7 @@
 
 import itertools
 
-from hypothesis import strategies as st
+from hplverif.tape import from_tape
 
 from hplverif import astx, core, gen, lib, mast, match
 from hplverif.core import Violation
@@ -350,20 +350,19 @@ def run_table(ctx, trees, name):
 ###############################################################################
 
 
-@st.composite
-def positive_cases(draw):
-    kind = draw(st.sampled_from(['property', 'property', 'property', 'predicate', 'condition', 'expression', 'specification']))
+def positive_cases(ch):
+    kind = ch.pick(['property', 'property', 'property', 'predicate', 'condition', 'expression', 'specification'])
     if kind == 'property':
-        m, _info = draw(gen.properties(depth=draw(st.integers(1, 4))))
+        m, _info = gen.properties(ch, depth=ch.int(1, 4))
     elif kind == 'specification':
-        n = draw(st.integers(1, 3))
-        m = ('spec', tuple(draw(gen.properties(depth=2))[0] for _ in range(n)))
+        n = ch.int(1, 3)
+        m = ('spec', tuple(gen.properties(ch, depth=2)[0] for _ in range(n)))
     elif kind == 'expression':
-        m = draw(gen.standalone_terms(depth=draw(st.integers(1, 5))))[0]
+        m = gen.standalone_terms(ch, depth=ch.int(1, 5))[0]
     else:
-        m = draw(gen.standalone_predicates(depth=draw(st.integers(1, 5))))[0]
-    lay = draw(gen.layouts())
-    lay2 = draw(gen.layouts()) if draw(st.booleans()) else None
+        m = gen.standalone_predicates(ch, depth=ch.int(1, 5))[0]
+    lay = gen.layouts(ch)
+    lay2 = gen.layouts(ch) if ch.bool() else None
     return {'kind': kind, 'm': m, 'layout': lay.to_json(), 'layout2': lay2.to_json() if lay2 else None}
 
 
@@ -379,26 +378,24 @@ def _role(t):
     return 'o'
 
 
-@st.composite
-def mutation_cases(draw):
-    base = draw(positive_cases())
+def mutation_cases(ch):
+    base = positive_cases(ch)
     kind, m = base['kind'], base['m']
-    toks = mast.tokens(('pred', m) if kind == 'predicate' else m, mast.Layout())
-    toks = list(toks)
-    nmut = draw(st.integers(1, 2))
+    toks = list(mast.tokens(('pred', m) if kind == 'predicate' else m, mast.Layout()))
+    nmut = ch.int(1, 2)
     ops = []
     for _ in range(nmut):
         if not toks:
             break
-        op = draw(st.sampled_from(['insert', 'delete', 'substitute', 'duplicate', 'swap']))
-        i = draw(st.integers(0, len(toks) - 1))
+        op = ch.pick(['insert', 'delete', 'substitute', 'duplicate', 'swap'])
+        i = ch.int(0, len(toks) - 1)
         if op == 'insert':
-            g = draw(st.sampled_from(GARBAGE))
+            g = ch.pick(GARBAGE)
             toks.insert(i, (g, _role(g)))
         elif op == 'delete':
             del toks[i]
         elif op == 'substitute':
-            g = draw(st.sampled_from(GARBAGE))
+            g = ch.pick(GARBAGE)
             toks[i] = (g, _role(g))
         elif op == 'duplicate':
             toks.insert(i, toks[i])
@@ -410,9 +407,8 @@ def mutation_cases(draw):
     return {'kind': kind, 'text': text, 'ops': ops}
 
 
-@st.composite
-def fusion_cases(draw):
-    base = draw(positive_cases())
+def fusion_cases(ch):
+    base = positive_cases(ch)
     kind, m = base['kind'], base['m']
     toks = mast.tokens(('pred', m) if kind == 'predicate' else m, mast.Layout())
     cands = [
@@ -422,7 +418,7 @@ def fusion_cases(draw):
     ]
     if not cands:
         return None
-    at = draw(st.sampled_from(cands))
+    at = ch.pick(cands)
     return {'kind': kind, 'toks': [list(t) for t in toks], 'at': at}
 
 
@@ -441,7 +437,7 @@ def shard(ctx, shard_no, nshards, n_pos, n_mut, n_fus):
             ctx.count('grammar_diff:valid')
 
     with ctx.timed('positive'):
-        core.run_hypothesis(ctx, 'positive', positive_cases(), body_pos, n_pos)
+        core.run_hypothesis(ctx, 'positive', from_tape(positive_cases), body_pos, n_pos)
 
     def body_mut(inp):
         r = sub_mutation(inp)
@@ -451,7 +447,7 @@ def shard(ctx, shard_no, nshards, n_pos, n_mut, n_fus):
             ctx.count('grammar_diff:mutated')
 
     with ctx.timed('mutation'):
-        core.run_hypothesis(ctx, 'mutation', mutation_cases(), body_mut, n_mut)
+        core.run_hypothesis(ctx, 'mutation', from_tape(mutation_cases), body_mut, n_mut)
 
     def body_fus(inp):
         if inp is None:
@@ -463,7 +459,7 @@ def shard(ctx, shard_no, nshards, n_pos, n_mut, n_fus):
         ctx.case(('fusion', inp['kind'], tuple(map(tuple, toks)), inp['at']), r != 'keyword', 'fusion:' + r, sample=w)
 
     with ctx.timed('fusion'):
-        core.run_hypothesis(ctx, 'fusion', fusion_cases(), body_fus, n_fus)
+        core.run_hypothesis(ctx, 'fusion', from_tape(fusion_cases), body_fus, n_fus)
 
 
 def run(ctx):
